@@ -1380,10 +1380,19 @@ class BaseInterpreter(Generic[TContext, TEvent]):
         #    a bare service key must match the MIDDLE segment too. Matching
         #    only the suffix silently missed every auto-id actor (the uuid is
         #    the last segment), so `send_to("worker", ...)` dropped the event.
+        #    Only the segments AFTER this interpreter's own id count: for a
+        #    non-root parent `split(":")[1:]` also contains the parent's own
+        #    segments, so a key equal to one of them addressed every child.
+        own_prefix = f"{self.id}:"
         matches = [
             actor
             for actor_id, actor in self._actors.items()
-            if spec in actor_id.split(":")[1:]
+            if spec
+            in (
+                actor_id[len(own_prefix) :].split(":")
+                if actor_id.startswith(own_prefix)
+                else actor_id.split(":")[1:]
+            )
         ]
         if len(matches) == 1:
             return matches[0]
